@@ -203,6 +203,52 @@ fn main() {
             }
         }
     }
+    // ---- purity / determinism: the decision is a function of its four arguments only. The same grid of
+    // inputs is evaluated in several orders (each order makes consecutive calls share a different subset of the
+    // arguments, which is what a cache keyed on too few of them would confuse); every evaluation must agree
+    // with the first one (S) and with the model (K, first order).
+    {
+        let gphis = [0.05f64, 0.2, 0.4, 0.65, 0.9];
+        let gpairs: [(u64, u64); 4] = [(1, 4), (3, 4), (10, 45_000_000), (7, 10)];
+        let mut grid: Vec<(f64, u64, u64, BigUint)> = vec![];
+        for &phi in &gphis {
+            for &(st, tot) in &gpairs {
+                if let Some(thr) = threshold((1.0 - phi).ln(), st, tot) {
+                    for d in [8usize, 3] {
+                        grid.push((phi, st, tot, &thr - (&thr >> d)));
+                        grid.push((phi, st, tot, (&thr + (&thr >> d)).min(max512.clone())));
+                    }
+                }
+            }
+        }
+        let mut first: Vec<&'static str> = vec![];
+        for (phi, st, tot, ev) in &grid {
+            first.push(ctx.emit("purity", *phi, ev, *st, *tot).unwrap_or("skipped"));
+        }
+        let orders: Vec<(&str, Box<dyn Fn(&(f64, u64, u64, BigUint)) -> (u64, u64, u64, Vec<u8>)>)> = vec![
+            ("by (stake,total) then phi", Box::new(|g| (g.1, g.2, g.0.to_bits(), g.3.to_bytes_be()))),
+            ("by draw then (stake,total) then phi", Box::new(|g| (0, g.1, g.0.to_bits(), { let mut v = g.3.to_bytes_be(); v.truncate(4); v }))),
+            ("by phi then total then stake", Box::new(|g| (g.0.to_bits(), g.2, g.1, g.3.to_bytes_be()))),
+            ("by total then phi", Box::new(|g| (g.2, g.0.to_bits(), g.1, g.3.to_bytes_be()))),
+        ];
+        if first.iter().all(|o| *o != "skipped") {
+            for (name, key) in orders {
+                let mut idx: Vec<usize> = (0..grid.len()).collect();
+                idx.sort_by_key(|i| key(&grid[*i]));
+                for pass in 0..2 {
+                    if pass == 1 { idx.reverse(); }
+                    for &i in &idx {
+                        let (phi, st, tot, ev) = &grid[i];
+                        let o = won(*phi, &ev_bytes(ev), *st, *tot);
+                        if o != first[i] {
+                            let k = ctx.sink.next_index();
+                            ctx.sink.sfail(k, "history-dependent", &format!("is_lottery_won(phi_f={}, stake={}, total={}, ev={}) answered {} first and {} when evaluated in the order '{}'", phi, st, tot, ev, first[i], o, name), "purity grid");
+                        }
+                    }
+                }
+            }
+        }
+    }
     // random everything
     let n = if args.thorough() { 200_000 } else { 2_000 };
     for _ in 0..n {
